@@ -29,6 +29,38 @@ from engines.scripted_prng import ScriptedPRNG, explore, TreeTooLarge, Nondeterm
 from simkit.core import HarnessError, Violation
 
 
+# -- a seam for a source of nondeterminism inside the simulators ---------------------------------------------
+# SimulationProductState.create_merged_state() (and .copy()) iterate over a *set of simulation-state
+# objects*; those hash by identity, so the iteration order -- hence the order in which sub-states are
+# merged and the axis permutation handed to transpose_to_qubit_order / reindex -- depends on memory
+# addresses, i.e. on the process and its history.  Correct code gives the same answer for every order, but
+# whether a defect shows then differs between the batch worker and the replay.  The harness therefore
+# gives these objects a deterministic hash: a per-run sequence number assigned at first use.
+_state_hash_counter = [0]
+
+
+def install_deterministic_state_hash() -> None:
+    from cirq.sim.simulation_state_base import SimulationStateBase
+
+    if getattr(SimulationStateBase, "_verif_hash_installed", False):
+        return
+
+    def _det_hash(self):
+        h = self.__dict__.get("_verif_hash")
+        if h is None:
+            _state_hash_counter[0] += 1
+            h = _state_hash_counter[0]
+            self.__dict__["_verif_hash"] = h
+        return h
+
+    SimulationStateBase.__hash__ = _det_hash
+    SimulationStateBase._verif_hash_installed = True
+
+
+def reset_state_hash_counter() -> None:
+    _state_hash_counter[0] = 0
+
+
 class SimConfig:
     def __init__(self, kind: str, dtype=np.complex64, split: bool = True, noise=None):
         self.kind = kind          # "sv" | "dm" | "clifford" | "stab-sampler" | "mux"
